@@ -1,13 +1,6 @@
 #![allow(dead_code)]
-mod engine;
-mod model;
-mod probes;
-mod props;
-mod rsys;
-mod sys;
-mod vsys;
-
-use engine::*;
+use vcheck::engine::*;
+use vcheck::{props, rsys, vsys};
 use std::time::Instant;
 
 fn usage() -> ! {
